@@ -84,6 +84,18 @@ func scenarioC01(x *runner.X) {
 		p.MaxEntries, p.MaxTxPerEntry = 3, 3
 	}
 	w := world.Generate(tapeRng{t.SubRand()}, p)
+	if t.Bool(0.35) {
+		// sections of exactly the lengths where the length prefix of a CAR section grows
+		var lens []int
+		for _, l := range []int{127, 128, 129, 130, 16383, 16384, 16385, 16386, 16387} {
+			if t.Bool(0.6) {
+				lens = append(lens, l)
+			}
+		}
+		if n := w.InsertBoundaryFrames(tapeRng{t.SubRand()}, lens); n > 0 {
+			x.Probe("boundary_length_sections")
+		}
+	}
 	disk := t.Bool(0.45)
 	remote := t.Bool(0.3)
 	x.Digest(w.Describe(), bucketKnob, disk, remote)
